@@ -77,11 +77,13 @@ func (g *histGen) attEntry(k int) Entry {
 	}
 	g.uniq++
 	e := AttEntry(k, src, tgt, g.uniq)
-	switch ch.Pick(4, 0) {
-	case 1:
+	switch ch.Pick(6, 0) {
+	case 1, 4:
 		e.ByKey = true
 	case 2:
 		e.Both = true
+	case 3:
+		e.KeyPad = 1 + ch.Pick(2, 0) // public key with trailing junk (resolves to the same account)
 	}
 	if ch.Pick(12, 0) == 11 {
 		e.Domain = MkDomain([4]byte{byte(2 + ch.Pick(8, 0)), 0, 0, 0}, g.uniq)
@@ -122,8 +124,11 @@ func (g *histGen) propEntry(k int) Entry {
 	}
 	g.uniq++
 	e := PropEntry(k, slot, g.uniq)
-	if ch.Pick(3, 0) == 1 {
+	switch ch.Pick(6, 0) {
+	case 1, 2:
 		e.ByKey = true
+	case 3:
+		e.KeyPad = 1 + ch.Pick(2, 0) // public key with trailing junk (resolves to the same account)
 	}
 	if ch.Pick(12, 0) == 11 {
 		e.Domain = MkDomain([4]byte{byte(1 + ch.Pick(8, 0)), 0, 0, 0}, g.uniq)
